@@ -103,12 +103,16 @@ def workerStep (cfg : RCfg) (w : Worker) (ex : Exists) (e : Entry) : Worker × E
 
 def setAt {α} (l : List α) (i : Nat) (a : α) : List α := l.set i a
 
+/-- `distributeTask`: the worker an entry goes to (`idx` = the previous choice) -/
+def workerOf (n : Nat) (e : Entry) (idx : Nat) : Nat :=
+  if e.key.length > 0 then fnv32a e.key % n else (idx + 1) % n
+
 /-- `distributeTask` + workers, in snapshot order -/
 def fanOut (cfg : RCfg) : List Entry → Nat → List Worker → Exists → List Worker × Exists × Bool
   | [], _, ws, ex => (ws, ex, true)
   | e :: es, idx, ws, ex =>
     let n := ws.length
-    let idx' := if e.key.length > 0 then fnv32a e.key % n else (idx + 1) % n
+    let idx' := workerOf n e idx
     let w := ws.getD idx' {}
     let (w', ex', ok) := workerStep cfg w ex e
     if ok then fanOut cfg es idx' (ws.set idx' w') ex'
